@@ -126,7 +126,7 @@ def job(j):
 
 # ------------------------------------------------------------------ through the transports
 
-def run_k(framing, c, fill, trail, ka, host=None):
+def run_k(framing, c, fill, trail, ka, host=None, T=1):
     world.reset()
     pl = fill if isinstance(fill, bytes) else (bytes([fill]) * (2 * c)) if fill is not None else bytes((i * 13 + 5) & 0xFF for i in range(2 * c))
 
@@ -138,7 +138,7 @@ def run_k(framing, c, fill, trail, ka, host=None):
         return [(D0, ('data', wire.aa55_resp('0186', pl)))]
     peer = PlanPeer(plan)
     loop = KLoop(peer)
-    p = make_protocol('tcp' if framing == 'tcp' else 'udp', 1, 0, ka, host=host)
+    p = make_protocol('tcp' if framing == 'tcp' else 'udp', T, 0, ka, host=host)
     cmd = gp.Aa55ProtocolCommand("010600", "0186") if framing == 'aa55' else p.read_command(0x891C, c)
 
     async def main():
@@ -151,7 +151,7 @@ def run_k(framing, c, fill, trail, ka, host=None):
     vio = []
     if st == 'hang' or res[0] != 'ok':
         s = wire.sum16(wire.aa55_resp('0186', pl)[:-2]) if framing == 'aa55' else 0
-        vio.append((f"request-succeeds/{framing}/{payload_class(pl)}" + ('/checksum>=0x8000' if s >= 0x8000 else ''),
+        vio.append((f"request-succeeds/{framing}/{payload_class(pl)}" + ('/checksum>=0x8000' if s >= 0x8000 else '') + (f'/timeout={T}' if T != 1 else ''),
                     f'{res[:2]} transmissions={len(peer.sent)}'))
     elif res[1] != pl:
         vio.append((f'exact-payload/{framing}/trailing={len(trail)}',
@@ -405,6 +405,14 @@ def run(tier, seed, rep):
         for key, cause in vio:
             rep.add(key, key.split('/')[0], dict(part='K', case=[case[0], case[1], case[2], case[3].hex(), case[4]]),
                     dict(cause=cause))
+        if nk % 7 == 0:
+            # other configured timeouts (floats, below one second, long): a conforming answer that arrives at once is accepted
+            for T_ in (0.5, 0.25, 2.5, 30):
+                vio, res = run_k(*case, T=T_)
+                nk += 1
+                for key, cause in vio:
+                    rep.add(key, key.split('/')[0],
+                            dict(part='K', case=[case[0], case[1], case[2], case[3].hex(), case[4]], T=T_), dict(cause=cause, timeout=T_))
         if nk % 5 == 0:
             # the inverter's host is configured as a name / a non-canonical spelling (the kernel model resolves it; the
             # source address of the answers is the resolved one)
@@ -488,5 +496,5 @@ def replay(r):
         return dict(outcome=o, violations=[] if o == 'accept' else [('conforming frame refused', o)])
     c = r['case']
     fill = bytes.fromhex(c[2]['hex']) if isinstance(c[2], dict) else c[2]      # (an explicit payload)
-    vio, res = run_k(c[0], c[1], fill, bytes.fromhex(c[3]), c[4], host=r.get('host'))
+    vio, res = run_k(c[0], c[1], fill, bytes.fromhex(c[3]), c[4], host=r.get('host'), T=r.get('T', 1))
     return dict(result=[x.hex() if isinstance(x, bytes) else x for x in res], violations=vio)
